@@ -97,6 +97,12 @@ func (c *ChunkBuffer) Write(s string, t ChunkType) {
 }
 
 // Get "No" chunked string
+// endsWithLineComment reports whether the last chunk is a "//" or "#" comment,
+// so that anything printed behind the chunks has to start on the next line
+func (c *ChunkBuffer) endsWithLineComment() bool {
+	return len(c.chunks) > 0 && c.chunks[len(c.chunks)-1].isLineComment()
+}
+
 func (c *ChunkBuffer) String() string {
 	buf := bufferPool.Get().(*bytes.Buffer) // nolint:errcheck
 	defer bufferPool.Put(buf)
